@@ -305,6 +305,48 @@ def loader_faults(ctx, rng):
         ctx.partial.append(f'create_schematic not importable here: {e}')
 
 
+def drawing_faults(ctx):
+    """a faulty symbol is rejected wherever it sits in the drawing — also AFTER annotation labels have been drawn (draw, solve, annotate,
+    add a symbol, translate again)"""
+    import matplotlib.pyplot as plt
+    import CircuitCalculator.SimpleCircuit.Elements as elm
+    from CircuitCalculator.SimpleCircuit import DiagramSolution as ds
+    from CircuitCalculator.SimpleCircuit.DiagramTranslator import circuit_translator
+    faults = {'negative-resistance': lambda at: elm.Resistor(R=-5.0, name='Rx').at(at).down(),
+              'negative-capacitance': lambda at: elm.Capacitor(C=-1e-6, name='Cx').at(at).down(),
+              'duplicate-id': lambda at: elm.Resistor(R=5.0, name='R1').at(at).down(),
+              'second-ground': lambda at: elm.Ground(name='g2').at(at)}
+    for fault, make in faults.items():
+        for labels_first in (False, True):
+            ctx.evaluations += 1
+            ctx.count(f'fault:drawing:{fault}:' + ('after-labels' if labels_first else 'plain'))
+            try:
+                d = elm.Schematic(unit=3)
+                v = elm.VoltageSource(V=12.0, name='V').up()
+                d += v
+                r1 = elm.Resistor(R=10.0, name='R1').right()
+                d += r1
+                r2 = elm.Resistor(R=20.0, name='R2').down()
+                d += r2
+                d += elm.Line().left()
+                d += elm.Ground().at(v.start)
+                circuit_translator(d)                         # the drawing is valid so far
+                if labels_first:
+                    sol = ds.real_solution(d)
+                    d += sol.draw_voltage('R1')
+                    d += sol.draw_current('R2')
+                    d += sol.draw_power('R2')
+                d += make(r1.end if fault != 'second-ground' else r2.end)
+            except Exception as e:  # noqa: BLE001
+                ctx.count(f'fault:drawing:setup-raises-{type(e).__name__}(excluded)')
+                plt.close('all')
+                continue
+            expect_raises(ctx, f'C19:drawing-accepts:{fault}' + (':after-labels' if labels_first else ''),
+                          f'{fault} symbol added ' + ('after annotation labels were drawn' if labels_first else 'to a valid drawing'),
+                          lambda d=d: circuit_translator(d), {'fault': fault, 'after_labels': labels_first})
+            plt.close('all')
+
+
 def run(ctx):
     ctx.trusted = TRUSTED
     ctx.assumptions = ['network-level elements.resistor/conductor have no sign rule by design (C01 admits all non-zero values); the sign '
@@ -317,6 +359,7 @@ def run(ctx):
         circuit_faults(ctx, rng, 30 if quick else 600)
         query_faults(ctx, rng, 6 if quick else 80)
         loader_faults(ctx, rng)
+        drawing_faults(ctx)
         try:
             import ldmodel
             ldmodel.correspond_c19(ctx, rng)
